@@ -9,7 +9,7 @@ CONSTANTS
   UsageVals = {0, 2}
   Times = {0, 1, 2}
   RIs = {1, 2}
-  MaxClock = 2
+  MaxClock = 1
   MCEstScheds <- OnlyOne
   MCEstInits <- OnlyOne
   MCSys = {TRUE}
